@@ -723,11 +723,13 @@ class HermesServer:
                                 case "modified":
                                     cache[objtype].replace(obj)
 
-                if sendEvents and commit:
-                    self.dm.commit_all(objtype)
-
                 if save:
                     cache.save()
+
+            # All events of the cycle were accepted: commit each type once
+            if sendEvents and commit:
+                for objtype in data.keys():
+                    self.dm.commit_all(objtype)
 
             if eventCategory == "initsync" and sendEvents:
                 self._msgbus.send(
